@@ -327,7 +327,7 @@ func FuzzC08(f *testing.F) {
 // TestRegress_C08: shrunk failure found before the fix: commit (width below 3 panicked).
 func TestRegress_C08(t *testing.T) {
 	for _, w := range []int{0, 1, 2, -1, -5} {
-		e := &log.Event{Level: log.NoneLevel, Time: time.Unix(0, 0).UTC(), Tag: "_app_def"}
+		e := &log.Event{Level: log.NoneLevel, Time: time.Unix(0, 0).UTC(), Tag: "_app_def", File: "f.go", Line: 7}
 		_, tl, p := formatBoth(e, w)
 		vk.Eval()
 		if p != nil {
